@@ -464,7 +464,7 @@ PROPS = {
                       "(the harness freezes now/today as seen by sun.py and moon.py). Coordinates: C16.",
         "lean_modules": ["Astral.Props.C09"],
         "theorems": [
-            "Astral.C09.name_or_object", "Astral.C09.event_name_or_object", "Astral.C09.tae_name_or_object", "Astral.C09.period_name_or_object", "Astral.C09.sunBundle_name_or_object", "Astral.C09.period_omitted_is_today", "Astral.C09.sunBundle_omitted_is_today", "Astral.C09.sunBundle_named_depression",
+            "Astral.C09.name_or_object", "Astral.C09.event_name_or_object", "Astral.C09.tae_name_or_object", "Astral.C09.period_name_or_object", "Astral.C09.sunBundle_name_or_object", "Astral.C09.period_omitted_is_today", "Astral.C09.sunBundle_omitted_is_today", "Astral.C09.sunBundle_named_depression", "Astral.C09.midnight_datetime_is_its_date",
             "Astral.C09.moon_name_or_object", "Astral.C09.named_depression", "Astral.C09.datetime_as_date",
             "Astral.C09.default_date", "Astral.C09.event_zone", "Astral.C09.rematch_congr",
             "Astral.C09.dawn_same_offsets", "Astral.C09.sunrise_same_offsets",
